@@ -279,6 +279,18 @@ pub fn run(out: &mut Out, seed: u64, tier: &str) {
             run_one(out, &format!("const-norm sized for a total travel of {:e} A (hinted)", f * mag), &base, Inner::ConstNorm { g: f * mag / (500.0 * 1e-4) }, None, &mut stats);
         }
     }
+    // starts with coincident atoms (all atoms at the origin, as a molecule made from symbols alone; one repeated position): the walk
+    // starts at the input geometry like any other, whatever the force field answers there
+    let origin = Mol { name: "water-at-origin".into(), zs: base.zs.clone(), xs: vec![[0.0; 3]; base.n()] };
+    let mut twin = lib[3].clone(); if twin.n() >= 3 { twin.xs[2] = twin.xs[1]; } twin.name = format!("{}-with-a-repeated-position", twin.name);
+    let mut twins2 = Mol { name: "two-coincident-pairs".into(), zs: vec![18, 18, 18, 18, 18], xs: vec![[0.0, 0.0, 0.0], [0.0, 0.0, 0.0], [4.0, 0.0, 0.0], [4.0, 0.0, 0.0], [0.0, 5.0, 0.0]] };
+    twins2.name = "two-coincident-pairs".into();
+    for start in [&origin, &twin, &twins2] {
+        run_one(out, &format!("rising-energy on {}", start.name), start, Inner::RisingEnergy { calls: 0, g: 1.0 }, None, &mut stats);
+        run_one(out, &format!("flat-energy on {}", start.name), start, Inner::Flat, Some(25), &mut stats);
+        run_one(out, &format!("const-norm 0.4 on {}", start.name), start, Inner::ConstNorm { g: 0.4 }, None, &mut stats);
+        if let Some(mol) = catch(|| start.build()) { for kind in ["uff", "rb"] { if let Some(ff) = FF::build(kind, &mol) { run_one(out, &format!("{}:{}", kind, start.name), start, Inner::Real(ff), None, &mut stats); } } }
+    }
     run_one(out, "budget-0", &base, Inner::Flat, Some(0), &mut stats);
     run_one(out, "budget-1", &base, Inner::Flat, Some(1), &mut stats);
     for _ in 0..(if tier == "thorough" { 40 } else { 8 }) {
